@@ -5,6 +5,7 @@
 From Coq Require Import String List ZArith Bool.
 From Coq Require Import Ascii NArith.
 From PV Require Import Model_scsv Proofs_scsv Model_scsv_frame Proofs_scsv_frame Model_scsv_header Proofs_scsv_header.
+From PV Require Import Model_scsv_py Gen_scsv Inst_scsv.
 Import ListNotations.
 Open Scope string_scope.
 
@@ -298,3 +299,83 @@ Example C16_header_examples :
         "    - name: 'x'"; "      type: string"; "      unit: km"; "      fill: ''";
         "    - name: 'y'"; "      type: integer"; "      fill: 0"].
 Proof. exact header_examples. Qed.
+
+(* ---- tie T: the definitions gen_* of coq/gen/Gen_scsv.v are regenerated from /repo/src/pydrex/io.py on every run
+   (translator/specs_scsv.py, a fail-closed Python-ast translator into the primitives of Model_scsv_py.v); each
+   statement says that the generated code IS the hand-written model the theorems above are about, for ALL inputs ---- *)
+
+(* _validate_scsv_schema: for every dictionary p that stands for a typed schema s (any key order, further keys such
+   as 'unit', every key possibly absent, names and fills of any scalar type) the generated function returns what
+   validate_schema returns, KeyError (field without name) and AttributeError (name not a string) included *)
+Theorem C16_gen_validate_is_model : forall O p s, abs_schema p = Some s ->
+  gen__validate_scsv_schema O p = lift_bool (validate_schema O s).
+Proof. exact gen_validate_eq. Qed.
+
+(* _parse_scsv_bool / _parse_scsv_cell: every type, every cell text, every missing marker, every fill value that is
+   not a complex number (the typed model has no complex fills) *)
+Theorem C16_gen_parse_bool_is_model : forall O x, gen__parse_scsv_bool O (PStr x) = Ok (PBool (parse_bool x)).
+Proof. exact gen_parse_bool_str. Qed.
+Theorem C16_gen_parse_cell_is_model : forall O t data missing fill, not_complex fill ->
+  gen__parse_scsv_cell O (PType t) (PStr data) (PStr missing) fill
+  = lift_cell (parse_cell O t data missing (abs_yval fill)).
+Proof. exact gen_parse_cell_eq. Qed.
+
+(* save_scsv, column-length check: columns given as lists or tuples *)
+Theorem C16_gen_save_lengths_is_model : forall O (cols : list (bool * list pyval)),
+  gen_save_scsv_lengths O (PList (map emb_col cols)) =
+  match cols with
+  | [] => Err EIndex
+  | c0 :: rest => if existsb (fun c => negb (Nat.eqb (length (snd c)) (length (snd c0)))) rest then Err SCSV
+                  else Ok (PInt (Z.of_nat (length (snd c0))))
+  end.
+Proof. exact gen_save_lengths_eq. Qed.
+
+(* save_scsv, fills / types / names: field_types of the model, then the names *)
+Theorem C16_gen_save_columns_is_model : forall kv l fs,
+  dget kv "fields" = Some (PList l) -> abs_fields l = Some fs ->
+  gen_save_scsv_columns (PDict kv) =
+    match field_types fs with
+    | Err e => Err e
+    | Ok tfs => match raw_names l with
+                | None => Err EKey
+                | Some ns => Ok (PList (map raw_fill l), PList (map (fun tf => PType (fst tf)) tfs), PList ns)
+                end
+    end.
+Proof. exact gen_save_columns_eq. Qed.
+
+(* save_scsv, body of the row loop: per-cell parse check (ValueError -> SCSVError), the isinstance / in (float,
+   complex) / np.isnan / == chain and the substitution of the missing marker, zip(strict=True) over the cells *)
+Theorem C16_gen_save_row_is_model : forall O kv m names tfs row,
+  dget kv "missing" = Some (PStr m) -> Forall (fun tf => not_complex (snd tf)) tfs -> length names = length tfs ->
+  gen_save_scsv_row O (PDict kv) (PList names) (PList (map (fun tf => PType (fst tf)) tfs)) (PList (map snd tfs))
+                    (PTuple (map emb_cell row))
+  = match row_vals O m tfs row with Ok vs => Ok (PList (map emb_cell vs)) | Err e => Err e end.
+Proof. exact gen_save_row_eq. Qed.
+Theorem C16_gen_save_row_written_text : forall O m tfs row,
+  value_to_scsv (match row_vals O m tfs row with Ok vs => Ok (map (pystr O) vs) | Err e => Err e end)
+  = save_row O m (map (fun tf => (fst tf, abs_yval (snd tf))) tfs) row.
+Proof. exact row_vals_model. Qed.
+
+(* read_scsv, the line loop: for every file the generated loop computes `frame` *)
+Theorem C16_gen_read_lines_is_model : forall O lines,
+  gen_read_scsv_lines O (PList (map PStr lines))
+  = Ok (PList (map PStr (fst (frame false lines))), PList (map PStr (snd (frame false lines)))).
+Proof. exact gen_read_lines_eq. Qed.
+
+(* read_scsv, schema names against the stripped header row; coltypes / missingstr / fillvals *)
+Theorem C16_gen_read_names_is_model : forall O kv l ns hdr file,
+  dget kv "fields" = Some (PList l) -> raw_names l = Some (map PStr ns) ->
+  gen_read_scsv_names O (PDict kv) (PList (map PStr hdr)) file
+  = if list_str_eqb ns (map strip hdr) then Ok (PList (map PStr ns)) else Err SCSV.
+Proof. exact gen_read_names_eq. Qed.
+Theorem C16_gen_read_columns_is_model : forall kv l fs,
+  dget kv "fields" = Some (PList l) -> abs_fields l = Some fs ->
+  gen_read_scsv_columns (PDict kv) =
+    match field_types fs with
+    | Err e => Err e
+    | Ok tfs => match dget kv "missing" with
+                | None => Err EKey
+                | Some m => Ok (PList (map (fun tf => PType (fst tf)) tfs), m, PList (map raw_fill l))
+                end
+    end.
+Proof. exact gen_read_columns_eq. Qed.
